@@ -252,19 +252,23 @@ class UpnpProfileDevice:
         # _resubscribe_loop iterate without ever awaiting.
         for sid, renewal_time in list(self._subscriptions.items()):
             _LOGGER.debug("Resubscribing to %s with renewal_time %f", sid, renewal_time)
-            # Subscription is going to be changed, no matter what
-            del self._subscriptions[sid]
             # Determine service for on_event call in case of failure
             service = self._event_handler.service_for_sid(sid)
             if not service:
                 _LOGGER.error("Subscription for %s was lost", sid)
+                del self._subscriptions[sid]
                 continue
 
+            # Keep the SID in the bookkeeping while the request is in flight, so
+            # that async_unsubscribe_services() still unsubscribes it when it
+            # cancels this renewal.
             try:
                 new_sid, timeout = await self._event_handler.async_resubscribe(
                     sid, timeout=SUBSCRIBE_TIMEOUT
                 )
             except UpnpError as err:
+                # Subscription is gone, the event handler dropped it
+                self._subscriptions.pop(sid, None)
                 if isinstance(err, UpnpConnectionError):
                     # Device has gone offline
                     self.profile_device.available = False
@@ -275,6 +279,7 @@ class UpnpProfileDevice:
                 else:
                     raise
             else:
+                self._subscriptions.pop(sid, None)
                 self._subscriptions[new_sid] = now + timeout.total_seconds()
 
     async def _resubscribe_loop(self) -> None:
